@@ -27,7 +27,20 @@
 #endif
 
 using DL = dispenso::detail::DistributedRWLockImpl<VF_N>;
-static DL D;
+// Storage: the real constructor obtains the slot array from makeAlignedArray (alignedMalloc: malloc +
+// integer pointer arithmetic), which the solver can only treat as untyped bytes (measured: > 15 min).
+// The harness therefore constructs the object's only data member, slots_, over a typed static Slot
+// array (value-initialised Slot(), exactly what makeAlignedArray does per element).  Every lock /
+// unlock member function executed is the real one.  (alignedMalloc itself is property C44.)
+static DL::Slot g_slots[VF_N];
+using SlotsPtr = decltype(DL::slots_);
+union Holder {
+  DL d;
+  Holder() { new (&d.slots_) SlotsPtr(g_slots, dispenso::detail::AlignedArrayFreeDeleter<DL::Slot>{VF_N}); }
+  ~Holder() {}
+};
+static Holder g_holder;
+#define D (g_holder.d)
 
 static int g_writers, g_readers;  // ghost occupancy (over the whole distributed lock)
 static unsigned g_events;
@@ -61,9 +74,13 @@ static inline void crit_r() {
   }
 }
 
-static inline void reader_op() {
-  size_t idx = vf_nondet_u64();  // any thread-to-slot mapping
-  if (vf_nondet_bool()) {
+// Reader on slot K with index hi * N + K: every 64-bit index value is of this form; the branch on K
+// keeps the sub-lock address a constant in each copy (a symbolic array index makes the solver treat
+// the slot array as raw bytes), the real code still reduces the full index with `& kMask`.
+template <size_t K>
+static inline void reader_at(uint64_t hi, bool blocking) {
+  size_t idx = hi * VF_N + K;
+  if (blocking) {
     D.lock_shared(idx);
     crit_r();
     D.unlock_shared(idx);
@@ -73,6 +90,20 @@ static inline void reader_op() {
   } else {
     note(EV_TRY_SHARED_FAILED);
   }
+}
+static inline void reader_op() {
+  uint64_t hi = vf_nondet_u64();  // any thread-to-slot mapping
+  uint8_t k = vf_nondet_u8();
+  vf_assume(k < VF_N);
+  bool blocking = vf_nondet_bool();
+  if (k == 0) reader_at<0>(hi, blocking);
+#if VF_N >= 2
+  else if (k == 1) reader_at<1>(hi, blocking);
+#endif
+#if VF_N >= 4
+  else if (k == 2) reader_at<2>(hi, blocking);
+  else if (k == 3) reader_at<3>(hi, blocking);
+#endif
 }
 static inline void try_writer_op() {
   if (D.try_lock()) {
@@ -135,9 +166,8 @@ extern "C" void vf_main() {
   if (g_events & EV_TRY_SHARED_FAILED) vf_reach("a try_lock_shared failed");
 #endif
   // Quiescence: every successful acquire was released; a failed try_lock / try_lock_shared must have
-  // left no trace.  Probe slot (symbolic) instead of a loop.
-  size_t probe = vf_nondet_u64();
-  vf_assume(probe < VF_N);
-  vf_check(D.slots_[probe].lockWord().load(std::memory_order_relaxed) == 0,
-           "a slot word is not back to the unlocked value at quiescence (failed try_lock left a trace / lost release)");
+  // left no trace.
+  for (size_t i = 0; i < VF_N; ++i)
+    vf_check(D.slots_[i].lockWord().load(std::memory_order_relaxed) == 0,
+             "a slot word is not back to the unlocked value at quiescence (failed try_lock left a trace / lost release)");
 }
